@@ -49,3 +49,30 @@ Theorem C10_success_complete :
     /\ (forall j, sF (PIn j) = s0 (PIn j)).
 Proof. exact success_complete. Qed.
 Print Assumptions C10_success_complete.
+
+(* The protocol as a grammar with arbitrary repetition: for every task, all
+   stale-file situations, both ways of creating the temporary file, every
+   number w0 of writes and every list of append rounds (each with its own
+   number of writes), the word
+     Unlink out? ; Unlink tmp? ; create ; Write^w0 ; Close ;
+     (OpenAppend ; Write^w ; Close)* ; Rename
+   is accepted by the protocol automaton ... *)
+Theorem C10_grammar_words_accepted :
+  forall (tk : task) (so st trunc : bool) (w0 : nat) (rounds : list nat),
+    accepts (cfg1 tk so st) 1 (file_word so st trunc w0 rounds) = true.
+Proof. exact file_word_accepted. Qed.
+Print Assumptions C10_grammar_words_accepted.
+
+(* ... and therefore a fault of either kind at any position k of such a run
+   leaves the output path absent or complete, starting from the file system
+   the stale-file flags describe. *)
+Theorem C10_grammar_words_safe :
+  forall (tk : task) (so st trunc : bool) (w0 : nat) (rounds : list nat)
+         (k : nat) (f : fault),
+    let c := cfg1 tk so st in
+    let t := file_word so st trunc w0 rounds in
+    let s := exec_fault (init_fs c) t k f in
+    view (wcount 0 t) (s (POut 0)) = VAbsent
+    \/ view (wcount 0 t) (s (POut 0)) = VComplete.
+Proof. exact file_word_safe. Qed.
+Print Assumptions C10_grammar_words_safe.
